@@ -464,7 +464,17 @@ func ruleR10d(c *Ctx) {
 				}
 			}
 		}
-		ast.Inspect(cc, func(y ast.Node) bool {
+		// the arm, or the function the arm hands the plural node to (writePluralFingerprint(buf, part))
+		armScope := &ast.BlockStmt{}
+		for _, nd := range c.nodeWithHelpers("soymsg", cc, 1) {
+			if nd == ast.Node(wf.Body) {
+				continue
+			}
+			if st, ok := nd.(ast.Stmt); ok {
+				armScope.List = append(armScope.List, st)
+			}
+		}
+		ast.Inspect(armScope, func(y ast.Node) bool {
 			call, ok := y.(*ast.CallExpr)
 			if !ok {
 				return true
